@@ -1,10 +1,24 @@
 HOOK_COMMITS = ["7de202d", "7f6c320", "bd5f58f", "f5c511f", "6cf08df"]
-FIX_COMMITS = ["7a73b90", "307c7cf", "73e9739", "b6ad768", "06a0422", "37593fd", "b26bda1", "ef4414e", "83534a3", "9d32858", "8df6799", "bfa46be", "d5169bc", "e984a30", "8e975df", "0e9fd95", "93bc5a2", "0df18c2", "dae6c16", "f32a1a0", "6b14b06", "641f662", "5fd891f", "12b678f", "5af4846", "35b9151", "1a0d573", "4dd26bc", "3419442", "a44aef0", "bfa15ff"]
+FIX_COMMITS = ["7a73b90", "307c7cf", "73e9739", "b6ad768", "06a0422", "37593fd", "b26bda1", "ef4414e", "83534a3", "9d32858", "8df6799", "bfa46be", "d5169bc", "e984a30", "8e975df", "0e9fd95", "93bc5a2", "0df18c2", "dae6c16", "f32a1a0", "6b14b06", "641f662", "5fd891f", "12b678f", "5af4846", "35b9151", "1a0d573", "4dd26bc", "3419442", "a44aef0", "bfa15ff", "db4d047"]
 
 NOTE_COMMON = ("Trusted: Lean kernel (axioms propext/Classical.choice/Quot.sound only), the hand-written model's "
                "fidelity outside the sampled correspondence, rustc/std and third-party crates as black boxes, the guarded hooks.")
 
 CLAIMS = {
+    "C11": {
+        "level": "Kernel-checked for every key engine (per-key transition, end-of-argument flush and reset are parameters): if every command of a sequence is complete "
+                 "(from a settled state - flush and reset are no-ops - its keys reach a settled state), then every grouping of the commands into arguments, with or "
+                 "without --keep-mode, reaches the state of typing all keys in one go, any two groupings agree, and they still agree after any later arguments "
+                 "(fields); without --keep-mode every argument starts in ViNormal::new() whatever the previous one left open, so the next argument depends on the "
+                 "previous one only through the editor part; with --keep-mode an argument is its keys plus the flush. Every run executes 2-5 (thorough 2-8) "
+                 "complete commands under all 2^(k-1) splittings through the real driver loop and compares text, cursor, registers, mode and two later fields, "
+                 "checks the theorem's hypothesis at every boundary on the real state (normal mode, nothing pending, set_normal_mode changes nothing), and checks "
+                 "unfinished arguments (pending count/register/operator/prefix dropped; open insert/visual/replace mode: the next argument acts as in a fresh "
+                 "session started from the text, cursor and registers left; --keep-mode: [OPEN, t] = [OPEN t]).",
+        "note": NOTE_COMMON + " The key engine itself is a parameter of the theorems; their hypotheses are validated on the implementation per case, not proved of it. "
+                "History-dependent followers (., u, n, ;) are excluded from the open-mode comparison because the repeat/undo/search state legitimately persists.",
+        "technique": "Lean 4 proof parametric in the key engine (split invariance by induction over the grouping) + hypothesis validation and all-splittings metamorphic check through the session hook",
+    },
     "C09": {
         "level": "Kernel-checked for every text, cursor and command: every sequence of ClampedUsize operations keeps the cursor under its bound; whatever a verb did, "
                  "the exec_cmd epilogue re-establishes bound = grapheme count, cursor under bound, offset table absent-or-fresh whenever the text changed, and under the "
